@@ -135,6 +135,7 @@ for K in ("SPAKE2_A", "SPAKE2_B", "SPAKE2_Symmetric"):
         ids = [("idA", "idA"), ("idB", "idB")]
     c.returns("none")
     c.setup("fresh_self")
+    c.writes(*(["self.pw", "self.pw_scalar", "self.params", "self.entropy_f", "self._started", "self._finished"] + ["self." + f for f, _ in ids]))
     c.ensures("self.pw == password and self.params is params and self.entropy_f is entropy_f", name="fields", tags="C16 C01 C02 C03 C04")
     for f, a in ids:
         c.ensures("self.%s == %s" % (f, a), name="id-" + f, tags="C16 C01 C02 C03 C08")
@@ -148,7 +149,7 @@ for K in ("SPAKE2_A", "SPAKE2_B", "SPAKE2_Symmetric"):
     c = REG.contract(Q + ".from_serialized")
     own = "hashed_params=str,side=str,password=hexstr,xy_scalar=hexstr," + ("idS=hexstr" if role == "S" else "idA=hexstr,idB=hexstr")
     other = "hashed_params=str,side=str,password=hexstr,xy_scalar=hexstr," + ("idS=hexstr" if role != "S" else "idA=hexstr,idB=hexstr")
-    c.params(klass="class:" + Q, data="jsonbytes:" + own, params="obj:params._Params").returns("obj:" + Q)
+    c.params(klass="class:" + Q, data="jsonbytes:" + own, params="obj:params._Params").returns("obj:" + Q).pure()
     c.cases({"data": "jsonbytes:" + own}, {"data": "jsonbytes:" + other})
     c.bind("d", "spec.json_dict(data)")
     c.bind("g", "params.group")
@@ -181,3 +182,13 @@ for K in ("SPAKE2_A", "SPAKE2_B", "SPAKE2_Symmetric"):
     c.ensures("spec.entropy_calls() == 0", name="no-entropy", tags="C11", on="both")
     c.ensures("classof(result) == '%s'" % K, name="class", tags="C09")
     c.canary("result.xy_scalar == spec.b2s(g, spec.unhex(d['xy_scalar'])) + 1")
+
+# ---- params._Params: the three blinding elements are derived from the seeds and belong to the group ----------------------
+c = REG.contract("params._Params.__init__")
+c.params(self="obj:params._Params", group="obj:GroupSpec", M="bytes", N="bytes", S="bytes").returns("none").setup("fresh_self")
+c.requires("spec.ae_ok(group, M) and spec.ae_ok(group, N) and spec.ae_ok(group, S)", name="seeds-derive-elements")
+c.ensures("self.group is group", name="group", tags="C18 C01 C16")
+c.ensures("spec.view(self.M) == spec.ae(group, M) and spec.view(self.N) == spec.ae(group, N) and spec.view(self.S) == spec.ae(group, S)", name="derived-from-seeds", tags="C14 C03 C18")
+c.ensures("spec.same_obj(self.M._g, group) and spec.same_obj(self.N._g, group) and spec.same_obj(self.S._g, group)", name="elements-of-group", tags="C18 C01 C04")
+c.ensures("spec.insub(group, spec.view(self.M)) and spec.insub(group, spec.view(self.N)) and spec.insub(group, spec.view(self.S))", name="in-subgroup", tags="C18 C04")
+c.ensures("self.M_str == M and self.N_str == N and self.S_str == S", name="seeds-kept", tags="C18")
